@@ -146,6 +146,12 @@ def run(prop, tier):
             if quick:
                 scheds = scheds[:: 1]
             scheds += [{"random": r.randrange(1 << 30), "p": r.choice([0.05, 0.15, 0.4])} for _ in range(25 if quick else 150)]
+            # (cold scenarios whose callers can meet in one call: elsewhere nobody enters a body and the schedule is a 1-preemption one)
+            if len(s["threads"]) == 2 and not s["warm"] and not s["name"].endswith("/diff"):
+                # park one caller at every decision point of the first half (its own way to the body), let the other enter ITS body,
+                # then let the parked one run on: the guards it still has to pass are passed while the other is computing
+                scheds += [{"start": s0, "park": k, "other": 1 - s0} for s0 in (0, 1)
+                           for k in range(2, n // 2 + 2, (1 if s["backend"] == "memory" else 3) if quick else 1)]
             if not quick:   # preemption bound 2, sampled
                 for _ in range(400):
                     a, b = sorted(r.sample(range(2, n + 1), 2))
